@@ -141,7 +141,7 @@ def runOp (j : Json) : R Json := do
   let failCallee := (fldStr j "fail").toOption.getD ""
   let ignoreDefault := (fldBool j "ignoreDefault").toOption.getD false
   match primary (cfgOf p) (fun path => p.world.lookup path) p.main with
-  | .error e => pure (obj [("build", errJ e)])
+  | .error e => pure (obj [("build", errJ e), ("status", jnat 1)])
   | .ok i =>
     let (r, listed) := run i conv (fun c => if c.callee == failCallee then 7 else 0) ignoreDefault words
     let blanks : String → List Bool := fun callee =>
@@ -158,7 +158,7 @@ def textOp (j : Json) : R Json := do
   let bin ← fldStr j "bin"
   let words ← strList (← fld j "helpWords")
   match primary (cfgOf p) (fun path => p.world.lookup path) p.main with
-  | .error e => pure (obj [("build", errJ e)])
+  | .error e => pure (obj [("build", errJ e), ("status", jnat 1)])
   | .ok i =>
     let envL ← match fldOpt j "colorEnv" with
       | none => pure []
